@@ -33,6 +33,7 @@ func (r *router) startFastHttpServer(cfg *ServerConfig) (*fasthttp.Server, error
 		clientAddrHeader: cfg.Http.ClientAddrHeader,
 		logger:           r.subLoggerForServer("server_fasthttp", cfg.Tag),
 	}
+	l = newListener(l, h.logger, r.limiter, costTCPConn)
 	h.logger.Info().
 		Str("network", l.Addr().Network()).
 		Stringer("addr", l.Addr()).
@@ -108,6 +109,12 @@ func (h *fasthttpHandler) HandleFastHTTP(ctx *fasthttp.RequestCtx) {
 	} else {
 		addr := ctx.RemoteAddr()
 		remoteAddr = netAddr2NetipAddr(addr) // Maybe invalid. e.g. server is on unix socket.
+	}
+
+	if err := h.r.limiterAllowN(remoteAddr.Addr(), costHTTPQuery); err != nil {
+		// TODO: Log or create a metrics entry for refused queries.
+		ctx.SetStatusCode(fasthttp.StatusServiceUnavailable)
+		return
 	}
 
 	// Maybe invalid. e.g. server is on unix socket.
